@@ -237,6 +237,30 @@ def poolTraceOp (toks : List String) : String :=
     | some i => s!"rejected:{i}"
   | none => "bad-op"
 
+def parseEv (t : String) : Option Ev :=
+  match t with
+  | "write.ctxcheck" => some .writeCtx
+  | "write.pipe" => some .writePipe
+  | "write.done" => some .writeDone
+  | "closewrite" => some .closeWrite
+  | "read.ready" => some .readReady
+  | "read.body" => some .readBody
+  | "read.done" => some .readDone
+  | "closeread" => some .closeRead
+  | "seterror.closepipe" => some .setErrorClosePipe
+  | "request.do" => some .requestDo
+  | "request.done" => some .requestDone
+  | "request.closeready" => some .requestCloseReady
+  | _ => none
+
+/-- `dtrace p1 p2 …`: is the observed order of synchronisation points a run of the model? -/
+def dtraceOp (toks : List String) : String :=
+  match toks.mapM parseEv with
+  | some evs => match traceReject DState.init evs 0 with
+    | none => "accepted"
+    | some i => s!"rejected:{i}"
+  | none => "bad-op"
+
 def step (line : String) : String :=
   match (line.trimAscii.toString.splitOn " ") with
   | ["code.str", n] => match n.toNat? with
@@ -310,6 +334,7 @@ def step (line : String) : String :=
   | "neg" :: args => negOp args
   | "cmin" :: args => cminOp args
   | "pool.trace" :: toks => poolTraceOp toks
+  | "dtrace" :: toks => dtraceOp toks
   | "cflow" :: args => cflowOp args
   | "gen" :: args => genOp args
   | "icpt" :: args => icptOp args
